@@ -24,6 +24,7 @@ from .field import Buffer, View, S
 from .sym import ATOMS, BoolSym, Sym, Unsupported, all_of, any_of, as_bool, ite, mk_atom
 
 UNITS: dict = {}
+EXTENT_NAMES: set = set()
 
 
 def unit(name, props, configs=({},), replay=True, desc=""):
@@ -139,6 +140,7 @@ class SymK(KBase):
 
     def ext(self, name, lo=1):
         n = Sym.I(name)
+        EXTENT_NAMES.add(name)
         ctx.assume(n >= lo)
         return n
 
@@ -217,6 +219,8 @@ class SymK(KBase):
     def ensures_eq(self, clause, lhs, rhs, when=True, props=None, note=""):
         lhs, rhs = S(lhs), S(rhs)
         d = lhs - rhs
+        if not d.is_zero():
+            d = _pin_integers(d)
         if d.is_zero():
             goal = BoolSym.const(True)
         else:
@@ -248,6 +252,59 @@ class SymK(KBase):
         self.obligations.append(Obligation(self._name(clause), props or self.props, BoolSym.const(False),
                                            ctx.facts(), kind="raises", note="returned normally"))
         return False
+
+
+def _atomic_cmps(b: BoolSym, out):
+    k = b.k
+    if k[0] in ("lt", "le", "eq"):
+        out.append((k[0], Sym._from_key(k[1])))
+    elif k[0] == "and":
+        for x in k[1]:
+            _atomic_cmps(BoolSym(x), out)
+
+
+def _pin_integers(d: Sym) -> Sym:
+    """substitute integer symbols whose value the current facts determine (a constant, or an
+    affine expression such as nx - 1 for a Skolem cell confined to a one-cell class); justified by
+    the facts, which stay among the assumptions."""
+    for _round in range(8):
+        ids = [a for a in smt.all_atoms([d]) if ATOMS[a].kind == "var" and ATOMS[a].sort == "int"]
+        # one symbol per round (no cyclic rewriting); grid extents are eliminated last
+        ids.sort(key=lambda a: (ATOMS[a].args[0] in EXTENT_NAMES, a))
+        mapping = {}
+        cmps = []
+        for f in ctx.ST.facts:
+            _atomic_cmps(f, cmps)
+        for a in ids:
+            me = Sym.atom(ATOMS[a])
+            if mapping:
+                break
+            v = ctx.unique_int_value(me)
+            if v is not None:
+                mapping[a] = Sym.const(v)
+                continue
+            for op, lin in cmps:
+                aff = lin.as_affine()
+                if aff is None or not lin.is_int_sorted():
+                    continue
+                c0, coeffs = aff
+                co = coeffs.get(a)
+                if co not in (1, -1):
+                    continue
+                # candidate: the bound is tight.  lin (+1 for strict) == 0 solved for the symbol
+                rest = lin - co * me + (1 if op == "lt" else 0)
+                cand = -rest if co == 1 else rest
+                if a in cand.atoms():
+                    continue
+                if ctx.decide(me == cand) is True:
+                    mapping[a] = cand
+                    break
+        if not mapping:
+            return d
+        d = d.subst(mapping)
+        if d.is_zero():
+            return d
+    return d
 
 
 # --------------------------------------------------------------------------------------------
